@@ -33,11 +33,18 @@ def tla_value(v):
         return '{' + ', '.join(tla_value(x) for x in v) + '}'
     if isinstance(v, (list, tuple)):
         return '<<' + ', '.join(tla_value(x) for x in v) + '>>'
+    if isinstance(v, StrFun):    # function with a string domain:  ("a" :> 1 @@ "b" :> 2)
+        return '(' + ' @@ '.join('%s :> %s' % (json.dumps(k), tla_value(x)) for k, x in sorted(v.d.items())) + ')'
     if isinstance(v, dict):
         return '[' + ', '.join('%s |-> %s' % (k, tla_value(x)) for k, x in sorted(v.items())) + ']'
     if isinstance(v, Raw):
         return v.text
     raise TypeError(type(v))
+
+
+class StrFun:
+    def __init__(self, d):
+        self.d = d
 
 
 class Raw:
@@ -145,7 +152,7 @@ def run_generator(workdir, consts, module='FM', defaults=True, invariants=(), em
         raise TLCError('generator printed %d cases for %d distinct states' % (len(cases), distinct))
     return cases, {'generated': gen, 'distinct': distinct, 'wall_s': round(wall, 2),
                    'consts': {k: (sorted(v) if isinstance(v, (set, frozenset)) else v)
-                              for k, v in cs.items() if not isinstance(v, Raw)},
+                              for k, v in cs.items() if not isinstance(v, (Raw, StrFun))},
                    'simulate': simulate, 'invariants': list(invariants)}
 
 
